@@ -149,6 +149,30 @@ Proof.
 Qed.
 Print Assumptions C19_full_statement_refuted.
 
+(* DISASSEMBLY NAMES.  compiler.Program.nativeFuncNames (what Disassemble prints after
+   CallNative) is filled from a map iteration over ALL functions.  Partial: the entry
+   for index i does not depend on the map order provided no two functions share
+   index i ... *)
+Theorem C19_disassembly_names_partial : forall (P : program) (order order' : list name) (i : Z),
+  Permutation order order' ->
+  (forall n n', In n order -> In n' order -> shown_hit P i n = true -> shown_hit P i n' = true -> n = n') ->
+  name_shown P order i = name_shown P order' i.
+Proof. exact name_shown_deterministic_partial. Qed.
+Print Assumptions C19_disassembly_names_partial.
+
+(* ... F-C19-3: a Go function and an AWK function do share one (both are numbered from 0):
+   function f(a) { natv(a) } is disassembled as "CallNative f" or "CallNative natv" *)
+Definition C19_disassembly_statement : Prop :=
+  forall P order order' i, Permutation order order' -> name_shown P order i = name_shown P order' i.
+
+Theorem C19_disassembly_names_refuted : ~ C19_disassembly_statement.
+Proof.
+  intros H. destruct native_clash_shown as [_ [H1 H2]].
+  pose proof (H native_clash [n_natv; [102]] [[102]; n_natv] 0%Z (perm_swap _ _ _)) as E.
+  rewrite H1, H2 in E. discriminate E.
+Qed.
+Print Assumptions C19_disassembly_names_refuted.
+
 (* ============ 2. A PARSED PROGRAM IS READ-ONLY (table theorems) ========================= *)
 
 (* the alias set: where the Program enters package interp and which interpreter
